@@ -612,7 +612,9 @@ def once_init(f, idx):
             decls = [d for m in f.nodes if m['k'] == 'declstmt' for d in m['decls'] if d['id'] == n['id']]
             inits = [d['init'] for d in decls if d.get('init') is not None and d['init'] >= 0]
             is_reference = any(d['t'].rstrip().endswith('&') for d in decls)   # a reference is never re-bound: "writes" go to the referent
-            writes = [] if is_reference else [m for m in f.nodes for (v, s_, vx) in defs_in_node(f, m) if v == n['id'] and m['k'] != 'declstmt']
+            writes = [] if is_reference else [m for m in f.nodes for (v, s_, vx) in defs_in_node(f, m) if v == n['id'] and m['k'] != 'declstmt' and
+                                              not (m['k'] == 'call' and is_transparent_call(m)) and     # std::move(x) / std::forward(x) do not write x
+                                              not (not s_ and idx in set(f.subtree(m['i'])))]            # the call the value is being handed to
             if len(inits) == 1 and not writes:
                 idx = inits[0]
                 continue
